@@ -132,6 +132,44 @@ Proof.
   intros i d H. exact (map_nth_error (fun d0 => filter_fields d0 fields allow) i page H).
 Qed.
 
+(* ---------------------------------------------------------------- per-source requests *)
+Lemma fetch_reqs_pure :
+  forall ff n, snd (fetch_reqs ff n) = ff /\ length (fst (fetch_reqs ff n)) = n
+               /\ forall r, In r (fst (fetch_reqs ff n)) -> r = ff.
+Proof.
+  intros ff n. unfold fetch_reqs, fetch_req_filter. simpl.
+  split; [reflexivity|]. split; [apply repeat_length|].
+  intros r H. now apply repeat_spec in H.
+Qed.
+
+Lemma memb_In : forall k l, memb k l = true <-> In k l.
+Proof.
+  intros k l. induction l as [|x l IH]; simpl; [split; [discriminate|tauto]|].
+  rewrite orb_true_iff, Nat.eqb_eq, IH. tauto.
+Qed.
+
+Lemma same_names_memb : forall a b, same_names a b = true -> forall k, memb k a = memb k b.
+Proof.
+  intros a b H k. unfold same_names in H. apply andb_true_iff in H. destruct H as [H1 H2].
+  rewrite forallb_forall in H1, H2.
+  destruct (memb k a) eqn:Ea; destruct (memb k b) eqn:Eb; try reflexivity.
+  - apply memb_In in Ea. specialize (H1 k Ea). congruence.
+  - apply memb_In in Eb. specialize (H2 k Eb). congruence.
+Qed.
+
+(* the result of the filter depends on the SET of listed names only (order, repetitions irrelevant) *)
+Lemma filter_depends_on_name_set :
+  forall d f1 f2 allow, f1 <> [] -> f2 <> [] -> same_names f1 f2 = true ->
+    filter_fields d f1 allow = filter_fields d f2 allow.
+Proof.
+  intros d f1 f2 allow H1 H2 H. pose proof (same_names_memb _ _ H) as M.
+  unfold filter_fields, filter_ids.
+  destruct f1 as [|a f1]; [congruence|]. destruct f2 as [|b f2]; [congruence|].
+  cbv zeta.
+  rewrite (filter_ext (to_remove d (a :: f1) allow) (to_remove d (b :: f2) allow)); [reflexivity|].
+  intros id. unfold to_remove. rewrite M. reflexivity.
+Qed.
+
 (* ---------------------------------------------------------------- duplicate keys, block-list v0 *)
 Lemma except_dup_keys_v0_refuted :
   exists d fields out,
